@@ -284,6 +284,7 @@ def _hook_tail(chk, ix, R, terms):
     run_order_discipline(chk, ix, R)
     run_field_coverage(chk, ix, R, terms)
     run_fixup(chk, ix)
+    run_none_encoding(chk, ix, R)
 
 
 def last_token(seq):
@@ -735,3 +736,42 @@ def run_fixup(chk: Check, ix) -> None:
         r6.ok("NodeFixer.visit_type_info: mro re-linked from _mro_refs", nf.loc())
     else:
         r6.violation("NodeFixer.visit_type_info: mro re-linked from _mro_refs", nf.loc(), "the MRO stored by name is not resolved after load")
+
+
+def run_none_encoding(chk: Check, ix, R) -> None:
+    """R11.11: None is encoded exactly."""
+    r = chk.rule("R11.11", "where a serializer encodes an optional value as `None marker | value`, the branch is selected by an identity test against None (or by truthiness of an object that cannot be falsy): a falsy non-None value (empty set/list/str, 0) must not be stored as None", floor=25)
+    mods = ("mypy.nodes", "mypy.types", "mypy.cache", "mypy.build", "mypy.errors")
+
+    def none_only(body) -> bool:
+        return len(body) == 1 and isinstance(body[0], ast.Expr) and isinstance(body[0].value, ast.Call) and norm(body[0].value.func).endswith("write_tag") and len(body[0].value.args) == 2 and norm(body[0].value.args[1]).endswith("LITERAL_NONE")
+
+    def exact(test: ast.expr, f) -> tuple[bool, str]:
+        t = test.operand if isinstance(test, ast.UnaryOp) and isinstance(test.op, ast.Not) else test
+        if isinstance(t, ast.Compare) and len(t.ops) == 1 and isinstance(t.ops[0], (ast.Is, ast.IsNot)) and isinstance(t.comparators[0], ast.Constant) and t.comparators[0].value is None:
+            return True, "identity test against None"
+        ty = R.type_of(t, f)
+        ms = members(ty)
+        if ms and all(x[0] == "cls" and x[1] in ix.classes and ix.classes[x[1]].lookup_method("__bool__") is None and ix.classes[x[1]].lookup_method("__len__") is None for x in ms):
+            return True, f"truthiness of {[x[1].split('.')[-1] for x in ms]} (no __bool__/__len__: never falsy)"
+        return False, f"truthiness test on `{norm(t)}` of static type {ms or 'unknown'}"
+
+    for q, f in sorted(ix.functions.items()):
+        if f.parent is not None or f.module.name not in mods:
+            continue
+        if f.name not in ("write", "serialize") and not f.name.startswith("write_"):
+            continue
+        for n in ast.walk(f.node):
+            test = None
+            if isinstance(n, ast.If) and (none_only(n.body) or none_only(n.orelse)):
+                test = n.test
+            elif isinstance(n, ast.IfExp) and ((isinstance(n.body, ast.Constant) and n.body.value is None) or (isinstance(n.orelse, ast.Constant) and n.orelse.value is None)):
+                test = n.test
+            if test is None:
+                continue
+            ok, why = exact(test, f)
+            key = f"{q}: None-or-value selected by `{norm(test)[:50]}`"
+            if ok:
+                r.ok(key, f.loc(n), why)
+            else:
+                r.violation(key, f.loc(n), f"{why}: a falsy but non-None value (e.g. an empty __slots__ set, an empty string) is written as None and comes back as None, which means something different to the consumers of this field")
